@@ -6,6 +6,7 @@ package main
 
 import (
 	"fmt"
+	"sort"
 
 	"github.com/AliceO2Group/Control/core/task"
 	"github.com/AliceO2Group/Control/core/task/sm"
@@ -314,5 +315,27 @@ func generate(o gen.Opts) []gen.Case {
 		ops := genOps(rComm, leaves, rComm.Range(2, 10*long), false, false)
 		cases = append(cases, runCase("comm", input{Tree: t, Ops: ops, Ops2: reorder(rComm, ops)}))
 	}
+	// small inputs first: the driver reports the first failing case, so this stands in for
+	// shrinking (the monitor is evaluated in Coq, after the run)
+	sort.SliceStable(cases, func(i, j int) bool { return sizeOf(cases[i]) < sizeOf(cases[j]) })
 	return cases
+}
+
+func countNodes(n nodeIn) int {
+	c := 1
+	if n.K == "r" {
+		return 1 + n.N*countNodes(n.Ch[0])
+	}
+	for _, ch := range n.Ch {
+		c += countNodes(ch)
+	}
+	return c
+}
+
+func sizeOf(c gen.Case) int {
+	in, ok := c.Input.(input)
+	if !ok {
+		return 0
+	}
+	return 2*len(in.Ops) + len(in.Sched) + countNodes(in.Tree)
 }
